@@ -29,7 +29,7 @@ def builds_needed(tier):
 
 # Own corpus re-run on other builds of the crate (mc/core.py: extra builds). Every observation is compared with the same model.
 def extra_builds(tier):
-    return [("relchk", None), ("sse41", None), ("native", None), ("fe32", None)]
+    return [("relchk", None), ("sse41", None), ("native", None), ("fe32", None), ("nosse2", None)]
 
 
 
